@@ -42,6 +42,8 @@ def run(ck: Check) -> int:
     from pytezos.michelson.instructions.crypto import HashKeyInstruction
     from props import C07_P
     C07_P.run_pkh(ck)              # lead's deductive part: public_key_hash over uninterpreted blake2b / base58
+    from props.C08_P import run_P
+    run_P(ck)                      # import / export wrapper logic over uninterpreted primitives
 
     Key = keymod.Key
     for f in (Key.from_secret_exponent, Key.from_encoded_key, Key.secret_key, Key.public_key_hash, Key.public_key,
@@ -92,7 +94,9 @@ def run(ck: Check) -> int:
     ck.note('remark (not demanded): the bad-length error message of validate_mnemonic is missing its f-prefix '
             "('{VALID_MNEMONIC_LENGTHS}' printed literally)")
     ck.exhaustive = False
-    return ck.finish('exploration',
-                     'R (bounded, real functions): derivation vs independent implementations, pkh/HASH_KEY vs '
+    return ck.finish('other',
+                     'P (props/C08_P.py, C07_P.run_pkh; real ASTs, every primitive uninterpreted): export∘import of public / plain / encrypted keys gives the '
+                     'same curve, public point and secret exponent for all secrets, passphrases and salts on the four curves; the encrypted layout; the '
+                     'curve-specific derivation call; public_key_hash = base58(tz1..tz4, blake2b-160(pk)). R (bounded, real functions): derivation vs independent implementations, pkh/HASH_KEY vs '
                      'hashlib+own Base58Check, plain/encrypted export-import round trips, BIP-39 acceptance vs '
                      'specs/bip39, determinism. Primitive correctness on all inputs is an assumed contract.')
